@@ -2,6 +2,7 @@
 # Regenerates MANIFEST.json from the table below (claimed properties) so that it stays valid.
 import json
 claimed = {
+ "C20": ("shutdown races explored with a preemption bound of 2 (quick) / 3 (thorough): CloseAndDelete / last Close / DropDataStore against a writer, a feed start and a fired expiry timer: no panic path, no deadlock, no goroutine left running or blocked, registry and other buckets usable afterwards", "view updates not yet encoded; more than 3 threads outside; schedules not replayed natively"),
  "C01": ("every KV write entry point, one step from an arbitrary invariant-satisfying bucket (2 collections sharing keys, 2 symbolic document slots + 1 spare): success/refusal condition, read-back body/expiry/JSON flag, frame (no other row or table changes), error => whole database unchanged", "1-step(Inv) over a relational stub of SQLite; bodies opaque; clock readings < 2^62; rev < 2^62"),
  "C02": ("CAS-conditional entry points, one step from an arbitrary state with a fully symbolic expected CAS (covers 0, current, stale, never-issued): applied iff current, refused => unchanged", "plus the two-writer races WriteCas||WriteCas and Remove||WriteCas on a version both hold (preemption bound 2/3): never both applied"),
  "C03": ("two client goroutines through two handles (copy()) on one key, schedule explored by the executor with context switches before every lock / SQL / channel / condition operation and a preemption bound of 2 (quick) / 3 (thorough), data symbolic: Incr||Incr (in-memory and on-disk connection budgets) never loses an increment, Update||Update never loses an update, a read concurrent with a write returns the old or the new version", "schedules are not replayed natively; more than 2 client threads / preemption bound outside; sequentially consistent memory between visible actions"),
@@ -14,16 +15,15 @@ claimed = {
  "C10": ("scoped to rosmar's own code: on the on-disk configuration (8 pooled connections) with up to 1 (quick) / 2 (thorough) symbolic Begin/Exec/Commit faults (BUSY or I/O error), every KV write entry point commits all of its effects (row, CAS, expiry, revision, both high-water marks) in exactly one commit before returning success, and commits nothing and changes nothing when it returns an error; BUSY retries included", "physical durability of a committed SQLite/WAL transaction across kill -9 is trusted (cgo/OS, not encodable); reopen after close/kill keeps data, UUID, expiry and re-arms the expiry timer"),
  "C19": ("SELECT id, body, xattrs FROM $_keyspace (and WHERE id = $k) over an arbitrary two-collection table, in-memory (pre-recorded iterator) and on-disk (streaming iterator): rows are exactly the live documents of the collection, each once, with current id/body/xattrs", "JSON-property filters use uninterpreted extraction; 2 document slots"),
  "C11": ("frame condition of every KV write entry point with the same key present in two collections: no row of another collection, no other table, and not the other collection's high-water mark change", "DropDataStore, views, queries pending"),
- "C13": ("bounded model checking from the empty registry through the real OpenBucket/Close/CloseAndDelete (URL handling evaluated natively, symbolic file system, sql.Open on a store registry): every sequence of 4 (quick) / 5 (thorough) operations over up to 4 handles, in-memory and on-disk: open-mode table, refusal of another URL, closed handles fail with the bucket-closed error, every other handle keeps working, data persists until CloseAndDelete, which removes data and registry entry", "one bucket name; concurrent open/close not yet encoded; on-disk sequences are not replayed natively"),
+ "C13": ("bounded model checking from the empty registry through the real OpenBucket/Close/CloseAndDelete (URL handling evaluated natively, symbolic file system, sql.Open on a store registry): every sequence of 4 (quick) / 5 (thorough) operations over up to 4 handles, in-memory and on-disk: open-mode table, refusal of another URL, closed handles fail with the bucket-closed error, every other handle keeps working, data persists until CloseAndDelete, which removes data and registry entry", "one bucket name; OpenBucket racing Close explored with preemption bound 2/3; on-disk sequences are not replayed natively"),
  "C14": ("expiry arithmetic for every 32-bit expiry and every clock reading; expiry-manager scheduling keeps the earliest deadline; after every write entry point (incl. Touch, PreserveExpiry) the timer is armed at or before the document's expiry; a firing timer tombstones exactly the documents whose expiry has passed and re-arms for the earliest remaining one", "Go runtime timer latency trusted (claim is 'armed with deadline <= T'); reopen arming not yet encoded"),
+ "C15": ("a checkpointed feed (resume mode) on the real registry/bucket, stopped by its terminator at every point the schedule allows (preemption bound 1 quick / 2 thorough) while a writer makes two writes, then restarted: the persisted checkpoint never exceeds the highest CAS delivered and the two runs together deliver the final version of every document", "one stop/restart, one writer goroutine; schedules not replayed natively"),
+ "C16": ("feeds on the real registry/bucket with two handles: terminator ends exactly that feed (done channel closed, callback silent, other feed unaffected), a dump ends by itself, CloseAndDelete and last on-disk Close end every feed whichever handle started it and leave no goroutine, and dropping another collection / closing the starting handle / ending another feed neither stops nor starves a running feed, whichever handle writes afterwards", "operation orders enumerated (choices), background goroutines run to quiescence between steps; multi-collection Bucket.StartDCPFeed not yet encoded"),
  "C17": ("revision number +1 (1 on creation) for every KV write entry point from an arbitrary state", "feed/virtual-xattr agreement pending"),
 }
 notyet = {
  "C12": "view harnesses not registered yet",
- "C15": "checkpoint harnesses not registered yet",
- "C16": "feed lifecycle harnesses not registered yet",
  "C18": "subdoc harnesses not registered yet",
- "C20": "shutdown harnesses not registered yet",
 }
 checks=[]
 for pid,(text,note) in sorted(claimed.items()):
